@@ -85,8 +85,14 @@ pub struct Case {
 
 /// the other end of the named pipe: waits until a reader has the pipe open, writes the text, closes; again for the
 /// next reader; ends when dropped
+/// set by a feeder that lost its reader (see `stalled`); looked at once the run is over
+static FIFO_STALLED: std::sync::atomic::AtomicBool = std::sync::atomic::AtomicBool::new(false);
+
 struct FifoFeeder {
     stop: std::sync::Arc<std::sync::atomic::AtomicBool>,
+    /// the feeder waited in vain for the reader's close: from then on it serves every open without waiting, and
+    /// the run is inconclusive (the harness's two parties lost each other; seen once in some millions of runs)
+    stalled: std::sync::Arc<std::sync::atomic::AtomicBool>,
     handle: Option<std::thread::JoinHandle<()>>,
 }
 
@@ -95,6 +101,10 @@ impl FifoFeeder {
         use std::os::unix::fs::OpenOptionsExt;
         let stop = std::sync::Arc::new(std::sync::atomic::AtomicBool::new(false));
         let s2 = stop.clone();
+        let stalled = std::sync::Arc::new(std::sync::atomic::AtomicBool::new(false));
+        let st2 = stalled.clone();
+        // (DSIM_FIFO_STALL_MS: for trying the stall path out)
+        let stall_ms: u64 = std::env::var("DSIM_FIFO_STALL_MS").ok().and_then(|v| v.parse().ok()).unwrap_or(10_000);
         let handle = std::thread::spawn(move || {
             use std::io::Write;
             // the reader's close is awaited through inotify (IN_CLOSE_NOWRITE): the write end is not opened again while
@@ -118,11 +128,21 @@ impl FifoFeeder {
                         }
                         let _ = f.write_all(text.as_bytes());
                         drop(f);
+                        if st2.load(std::sync::atomic::Ordering::SeqCst) {
+                            // (out of step: leave the reader time to see the end of the text)
+                            std::thread::sleep(std::time::Duration::from_millis(2));
+                        }
                         // wait for that reader to close
                         let mut buf = [0u8; 4096];
-                        while ino >= 0 && !s2.load(std::sync::atomic::Ordering::SeqCst) {
+                        let waiting_since = std::time::Instant::now();
+                        while ino >= 0 && !s2.load(std::sync::atomic::Ordering::SeqCst) && !st2.load(std::sync::atomic::Ordering::SeqCst) {
                             let n = unsafe { libc::read(ino, buf.as_mut_ptr() as *mut libc::c_void, buf.len()) };
                             if n > 0 {
+                                break;
+                            }
+                            if waiting_since.elapsed().as_millis() as u64 >= stall_ms {
+                                st2.store(true, std::sync::atomic::Ordering::SeqCst);
+                                FIFO_STALLED.store(true, std::sync::atomic::Ordering::SeqCst);
                                 break;
                             }
                             std::thread::sleep(std::time::Duration::from_micros(50));
@@ -137,7 +157,7 @@ impl FifoFeeder {
                 }
             }
         });
-        FifoFeeder { stop, handle: Some(handle) }
+        FifoFeeder { stop, stalled, handle: Some(handle) }
     }
 }
 
@@ -429,6 +449,11 @@ fn run_case(case: &Case, env: &WorkerEnv) -> Verdict {
     let problem = if fault_file == Some(0) { Some(Problem::Unreadable(0)) } else { first_problem(case, 0, 0, fault_file) };
     let parsed = parser::parse_file(&root_arg);
     sim::with_core(|c| c.note(&format!("parse_file {} -> {}", root_arg, if parsed.is_ok() { "Ok" } else { "Err" })));
+    if let Some(f) = &_feeder {
+        if f.stalled.load(std::sync::atomic::Ordering::SeqCst) {
+            return Verdict::Inconclusive { reason: "the named pipe's feeder waited 10 s in vain for the reader to close: harness parties out of step".to_string() };
+        }
+    }
 
     // ---- clause 4: fault variants fail the whole parse, naming the file / line
     if let Some(pb) = &problem {
@@ -783,7 +808,13 @@ impl Prop for C14 {
             }
         }
         let fault_config = case.fault.is_some() || case.files.iter().any(|f| f.lines.iter().any(|l| matches!(l, Line::Malformed(_))));
+        FIFO_STALLED.store(false, std::sync::atomic::Ordering::SeqCst);
         let res = std::panic::catch_unwind(std::panic::AssertUnwindSafe(|| run_case(&case, env)));
+        let res = if FIFO_STALLED.load(std::sync::atomic::Ordering::SeqCst) {
+            Ok(Verdict::Inconclusive { reason: "the named pipe's feeder waited 10 s in vain for the reader to close: harness parties out of step".to_string() })
+        } else {
+            res
+        };
         // (a run may have moved into the script's directory)
         if env.chrooted {
             let _ = std::env::set_current_dir("/");
